@@ -6,6 +6,7 @@ import (
 	"encoding/json"
 	"fmt"
 	"math/big"
+	"strings"
 
 	"verif/internal/e2e"
 	"verif/internal/perso"
@@ -17,7 +18,7 @@ import (
 
 func init() {
 	vc.Register(&vc.Check{ID: "C06", Level: "model_checking", Run: run, Replay: replay, QuickSec: 170, ThoroSec: 1500,
-		Rule:   "real Reader.ReadDocument (-> chipauth.DoChipAuth, pace CAM step) against the independent chip. Conforming side, all enumerated: 11 curves x {named, explicit parameters} x {3DES, AES-128/192/256} x key arrangement {one key without id, one key with id 1, one key with id 0, one key with id 256, two keys with ids 1/2 and the info naming the second, two keys with ids 2/258 (equal low octet), no ChipAuthenticationInfo (3DES inferred, MSE:Set KAT) with one key without id / one key with id / two keys with ids} x access control {BAC, PACE-GM}; terminal ephemeral scalar alphabet {2, n-2, pattern, leading-zero shared x} on every curve. Oracle: success reported, the chip switched keys and authenticated a command under them, two further protected reads succeed with equal restarted counters. Impostor side (chip without the private key): answers 9000 to MSE/GA, then to the protected probe every strategy of {own (wrong-key) session response, SM-formatted 9000 with an empty / 1-byte / zero / absent MAC, bare 9000, bare 6A82, garbage, replay of the old session's last response, command echoed, response under the old session keys}; CAM impostor: chip-authentication data computed with a non-certified key => never reported successful. Histories through the chipauth API (BAC, then DoChipAuth; one reused ChipAuth object and a new one per run): every sequence of up to 3 (thorough 4) runs over {genuine chip, key-less clone replaying the recorded first response under the new keys, key-less clone under its own keys}. states = reads, transitions = exchanges; distinct_nontrivial = distinct (configuration, scalar/strategy, outcome)",
+		Rule:   "real Reader.ReadDocument (-> chipauth.DoChipAuth, pace CAM step) against the independent chip. Conforming side, all enumerated: 11 curves x {named, explicit parameters} x {3DES, AES-128/192/256} x key arrangement {one key without id, one key with id 1, one key with id 0, one key with id 256, two keys with ids 1/2 and the info naming the second, two keys with ids 2/258 (equal low octet), no ChipAuthenticationInfo (3DES inferred, MSE:Set KAT) with one key without id / one key with id / two keys with ids, ONE key advertised with several ChipAuthenticationInfo entries: every ordered selection of 2 or 3 of the 4 suites with and without key id (quick: 3 curves)} x access control {BAC, PACE-GM}; terminal ephemeral scalar alphabet {2, n-2, pattern, leading-zero shared x} on every curve. Oracle: success reported, the chip switched keys and authenticated a command under them, two further protected reads succeed with equal restarted counters. Impostor side (chip without the private key): answers 9000 to MSE/GA, then to the protected probe every strategy of {own (wrong-key) session response, SM-formatted 9000 with an empty / 1-byte / zero / absent MAC, bare 9000, bare 6A82, garbage, replay of the old session's last response, command echoed, response under the old session keys}; CAM impostor: chip-authentication data computed with a non-certified key => never reported successful. Histories through the chipauth API (BAC, then DoChipAuth; one reused ChipAuth object and a new one per run): every sequence of up to 3 (thorough 4) runs over {genuine chip, key-less clone replaying the recorded first response under the new keys, key-less clone under its own keys}. states = reads, transitions = exchanges; distinct_nontrivial = distinct (configuration, scalar/strategy, outcome)",
 		Assume: []string{"refchip CA follows ICAO 9303-11 §6.2 / BSI TR-03110 (ECKA with FE2OS secret, key switch after the response to GENERAL AUTHENTICATE / MSE:Set KAT, counter restart)", "discrete log not searched"}})
 }
 
@@ -82,8 +83,41 @@ func config(cc caCase) perso.Config {
 		cfg.CA = []perso.CASpec{{Curve: cc.Curve, Explicit: cc.Explicit, Cipher: 1, KeyID: &one, NoInfo: true, Clone: clone}}
 	case "noinfo":
 		cfg.CA = []perso.CASpec{{Curve: cc.Curve, Explicit: cc.Explicit, Cipher: 1, NoInfo: true, Clone: clone}}
+	default:
+		// "suites:<digits>[:id]" - ONE key advertised with several ChipAuthenticationInfo entries (one per digit, in
+		// this order in DG14); the chip accepts each advertised suite and derives the session under the one named
+		if strings.HasPrefix(cc.Arr, "suites:") {
+			f := strings.Split(cc.Arr, ":")
+			spec := perso.CASpec{Curve: cc.Curve, Explicit: cc.Explicit, Cipher: int(f[1][0] - '0'), Clone: clone}
+			for _, d := range f[1][1:] {
+				spec.AlsoCiphers = append(spec.AlsoCiphers, int(d-'0'))
+			}
+			if len(f) > 2 {
+				spec.KeyID = &one
+			}
+			cfg.CA = []perso.CASpec{spec}
+		}
 	}
 	return cfg
+}
+
+// suiteOrders: every ordered selection of 2 and of 3 distinct suites out of {1 3DES, 2 AES-128, 3 AES-192, 4 AES-256}
+func suiteOrders() []string {
+	var out []string
+	for a := '1'; a <= '4'; a++ {
+		for b := '1'; b <= '4'; b++ {
+			if a == b {
+				continue
+			}
+			out = append(out, string([]rune{a, b}))
+			for d := '1'; d <= '4'; d++ {
+				if d != a && d != b {
+					out = append(out, string([]rune{a, b, d}))
+				}
+			}
+		}
+	}
+	return out
 }
 
 func scalarFor(cc caCase, p *perso.Perso) []byte {
@@ -274,7 +308,7 @@ func run(c *vc.Ctx) {
 		}
 	}
 	sec1 := "conforming chip: configuration lattice"
-	c.SecBound(sec1, "11 curves x {named,explicit} x 4 ciphers x {noid,id,two} + noinfo(3DES) x {BAC,PACE-GM}")
+	c.SecBound(sec1, "11 curves x {named,explicit} x 4 ciphers x {noid,id,id0,two,id256,two-ids-2-and-258} + noinfo(3DES) x 3 + 36 ordered suite selections x {noid,id} on one key (quick: 3 curves, named, BAC) x {BAC,PACE-GM}")
 	for _, curve := range refpki.CurveNames {
 		for _, ex := range []bool{false, true} {
 			for _, pace := range []bool{false, true} {
@@ -288,6 +322,17 @@ func run(c *vc.Ctx) {
 							goto scal
 						}
 						do(sec1, caCase{Curve: curve, Explicit: ex, Cipher: cipher, Arr: arr, PACE: pace})
+					}
+				}
+				// one key, several advertised suites: every ordered selection of 2 or 3 of the 4 suites
+				if c.Thorough() || (!ex && !pace && (curve == "P-256" || curve == "brainpoolP384r1" || curve == "P-521")) {
+					for _, order := range suiteOrders() {
+						for _, id := range []string{"", ":id"} {
+							if !c.Mine() {
+								continue
+							}
+							do(sec1, caCase{Curve: curve, Explicit: ex, Cipher: int(order[0] - '0'), Arr: "suites:" + order + id, PACE: pace})
+						}
 					}
 				}
 				if c.Mine() {
